@@ -23,7 +23,11 @@ _TRY_OLD = '''        try:
             elif operator == "~=":
                 if val is None:
                     return False
-                return expected in val
+                try:
+                    return expected in val
+                except ValueError:
+                    # An int that isn't a byte value can't be contained in bytes
+                    return False
 '''
 _TRY_NEW_D16 = '''        if not operator:
             return bool(val)
@@ -42,7 +46,10 @@ _TRY_NEW_D16 = '''        if not operator:
         elif operator == "~=":
             if val is None:
                 return False
-            return expected in val
+            try:
+                return expected in val
+            except ValueError:
+                return False
         try:
             if operator is None:
                 return False
@@ -416,9 +423,9 @@ VARIANTS = [
      "new": "        message.deserializer = None\n        self._message = None\n        try:\n            self._frozen_message = pickle.dumps(message, protocol=pickle.HIGHEST_PROTOCOL)"},
     {"name": "P R8 pickled into a local, stored and released after the finally", "file": LOGR, "expect": "silent",
      "old": "            self._frozen_message = pickle.dumps(self._message, protocol=pickle.HIGHEST_PROTOCOL)\n        finally:\n"
-            "            message.deserializer = self._deserializer\n        self._message = None",
+            "            message.deserializer = deserializer_ref\n        self._message = None",
      "new": "            pickled = pickle.dumps(self._message, protocol=pickle.HIGHEST_PROTOCOL)\n        finally:\n"
-            "            message.deserializer = self._deserializer\n        self._frozen_message = pickled\n        self._message = None"},
+            "            message.deserializer = deserializer_ref\n        self._frozen_message = pickled\n        self._message = None"},
     {"name": "R5 filter evaluated before the entry is retained", "file": LOGR, "expect": "C18.R5",
      "old": "            self._raw_entries.append(entry)\n            if self.filter.match(entry):",
      "new": "            visible = self.filter.match(entry)\n            self._raw_entries.append(entry)\n            if visible:"},
@@ -471,6 +478,42 @@ VARIANTS = [
      "new": "        seen = []\n        for operand in self.children:\n            outcome = operand.match(msg, short_circuit)\n"
             "            seen.append(outcome)\n            if not outcome:\n                return MatchResult(False, [])\n"
             "        merged = []\n        for o in seen:\n            merged.extend(o.fields)\n        return MatchResult(True, merged)"},
+    # ---- D38
+    {"name": "R4 '~=' containment without the ValueError guard (reverts 649dc22: `300 in bytes` raises out of the filter)",
+     "file": LOGR, "expect": "C18.R4",
+     "old": "                try:\n                    return expected in val\n                except ValueError:\n"
+            "                    # An int that isn't a byte value can't be contained in bytes\n                    return False\n",
+     "new": "                return expected in val\n"},
+    {"name": "P R4 '~=' containment in a local try catching all three classes", "file": LOGR, "expect": "silent",
+     "old": "                try:\n                    return expected in val\n                except ValueError:\n"
+            "                    # An int that isn't a byte value can't be contained in bytes\n                    return False\n",
+     "new": "                try:\n                    return expected in val\n                except (TypeError, AttributeError, ValueError):\n"
+            "                    return False\n"},
+    {"name": "P R4 ValueError added to the outer handler instead", "expect": "silent", "edits": [
+        {"file": LOGR, "old": "                try:\n                    return expected in val\n                except ValueError:\n"
+            "                    # An int that isn't a byte value can't be contained in bytes\n                    return False\n",
+         "new": "                return expected in val\n"},
+        {"file": LOGR, "old": "        except (TypeError, AttributeError):\n            # The comparison",
+         "new": "        except (TypeError, AttributeError, ValueError):\n            # The comparison"}]},
+    # ---- D39
+    {"name": "R8 entry keeps only the message's weak reference to its deserializer (reverts 93cc314)", "expect": "C18.R8", "edits": [
+        {"file": LOGR, "old": "        self._deserializer = message.deserializer() if message.deserializer else None\n",
+         "new": "        self._deserializer = None\n"},
+        {"file": LOGR, "old": "            if self._deserializer is not None:\n                message.deserializer = weakref.ref(self._deserializer)\n",
+         "new": "            message.deserializer = self._deserializer\n"},
+        {"file": LOGR, "old": "        deserializer_ref = message.deserializer\n        message.deserializer = None\n",
+         "new": "        self._deserializer = self.message.deserializer\n        deserializer_ref = self._deserializer\n        message.deserializer = None\n"}]},
+    {"name": "R8 thaw never re-attaches a deserializer", "file": LOGR, "expect": "C18.R8",
+     "old": "            if self._deserializer is not None:\n                message.deserializer = weakref.ref(self._deserializer)\n", "new": ""},
+    {"name": "P R8 strong reference taken through a helper in __init__ and freeze", "expect": "silent", "edits": [
+        {"file": LOGR, "old": "        self._deserializer = message.deserializer() if message.deserializer else None\n",
+         "new": "        self._deserializer = self._strong_deserializer(message)\n"},
+        {"file": LOGR, "old": "        deserializer_ref = message.deserializer\n        message.deserializer = None\n",
+         "new": "        self._deserializer = self._strong_deserializer(message) or self._deserializer\n"
+                "        deserializer_ref = message.deserializer\n        message.deserializer = None\n"},
+        {"file": LOGR, "old": "    _MESSAGE_META_ATTRS = {",
+         "new": "    @staticmethod\n    def _strong_deserializer(message):\n        ref = message.deserializer\n"
+                "        return ref() if ref else None\n\n    _MESSAGE_META_ATTRS = {"}]},
     # ---- documented limits
     {"name": "X bare selector matches on the raw value instead of truthiness", "file": LOGR, "expect": "miss",
      "old": "                return bool(val)\n", "new": "                return val is not None\n"},
